@@ -284,7 +284,9 @@ class Evaluator:
                     self.run(st.orelse)
             elif isinstance(st, ast.For):
                 it = self.ev(st.iter)
-                if isinstance(it, dict):
+                if isinstance(it, (dict, set, frozenset)):
+                    it = sorted(it) if isinstance(it, (set, frozenset)) else list(it)
+                if isinstance(it, Native) and hasattr(it, '__iter__'):
                     it = list(it)
                 if not isinstance(it, (range, list, tuple, bytes, bytearray, str)) and type(it).__name__ not in ('odict_items', 'dict_items', 'dict_keys', 'dict_values', 'odict_keys', 'odict_values'):
                     raise Unsupported('iteration over %s' % ast.unparse(st.iter))
